@@ -39,7 +39,7 @@ def run_one(prop, m, keep=False):
         r = subprocess.run([os.path.join(VERIF, "bin", "check"), prop, m.get("tier", "quick")], env=env, cwd=VERIF,
                            stdout=subprocess.PIPE, stderr=subprocess.STDOUT, text=True)
         out = r.stdout
-        if "does not compile" in out:
+        if "the tree does not compile" in out or "does not compile as a stand-alone crate" in out:
             return (prop, m["id"], "NO-COMPILE", out[-1500:])
         if m["expect"] == "silent":
             ok = r.returncode == 0 and "VIOLATION" not in out
